@@ -16,6 +16,7 @@ standardization target and stabilized or unstabilized weights.
 import ZepidVerif.Lemmas.Ipw
 import ZepidVerif.Lemmas.Aipw
 import ZepidVerif.Lemmas.GFormula
+import ZepidVerif.Lemmas.FitBridge
 import Mathlib.Algebra.Order.Field.Rat
 import Mathlib.Tactic.NormNum
 set_option linter.unusedSectionVars false
@@ -89,6 +90,14 @@ theorem gformula_saturated (l : List (Row F)) (S : List Nat) (hS : Strata l S) (
     (Q : Nat → Bool → F) (hQ : OutFit l S Q) (t : Tgt) (a : Bool) :
     gformula l (fun r => Q r.s) t.mem a = std l S t.mem a := by
   exact gformula_of_outfit l S hS hpos Q hQ t.mem a
+
+/-- **Tie to the source.**  The marginal-mean lines of `TimeFixedGFormula.fit`, regenerated from their text
+    on every run, compute the model `gformula` (when no row is lost to `dropna`; without a weight column all
+    frequency weights are 1): so the generated code inherits `gformula_saturated`. -/
+theorem gformula_generated (hasWeights : Bool) (t : Tgt) (l : List (Row F)) (pred : Row F → F) (a : Bool)
+    (hw : hasWeights = false → ∀ r ∈ l, r.w = 1) :
+    Gen.gformula_marginal hasWeights t.str l pred (fun _ => true) = gformula l (fun r _ => pred r) t.mem a :=
+  gformula_marginal_eq hasWeights t l pred a hw
 
 /-- **AIPTW** with both nuisance models saturated (no missing outcomes): the weighted means of the
     pseudo-outcomes are the standardized means over the whole population. -/
